@@ -21,6 +21,9 @@ import RoModel.Drivers.More
 import RoModel.Drivers.Fault
 import RoModel.Drivers.Prom
 import RoModel.Drivers.Cut
+import RoModel.Drivers.MultiB
+import RoModel.Drivers.MultiBC
+import RoModel.Drivers.Share
 import RoModel.Drivers.Race
 namespace Ro.Driver
 
@@ -51,6 +54,13 @@ def handlers : List (String × (Case → String)) := [
   ("cutin", Drivers.Cut.runCutIn),
   ("collect", Drivers.Cut.runCollect),
   ("teardown", Drivers.Cut.runTeardown),
+  ("multib", Drivers.MultiB.run),
+  ("multibc", Drivers.MultiBC.run),
+  ("share", Drivers.Share.run),
+  ("conn", Drivers.Share.runConn),
+  ("sharec", Drivers.Share.runConc),
+  ("connc", Drivers.Share.runConc),
+  ("sharex", Drivers.Share.runScenario),
   ("race", Drivers.Race.run)
 ]
 
